@@ -43,9 +43,12 @@ def _run_chunk(args):
             continue
         signal.setitimer(signal.ITIMER_REAL, CASE_TIMEOUT)
         try:
-            cr = spec["case"](seed, idx, tier)
+            if spec.get("isolate"):
+                out.append(_isolated(spec, seed, idx, tier))
+            else:
+                cr = spec["case"](seed, idx, tier)
+                out.append(pack_case(idx, cr))
             signal.setitimer(signal.ITIMER_REAL, 0)
-            out.append(pack_case(idx, cr))
         except CaseTimeout:
             out.append({"idx": idx, "timeout": True})
         except Exception:
@@ -54,6 +57,43 @@ def _run_chunk(args):
         finally:
             signal.setitimer(signal.ITIMER_REAL, 0)
     return out
+
+
+def _isolated(spec, seed, idx, tier):
+    """Run one case in a freshly forked child, so that every case starts from the same pristine process
+    state (cobyqa imported, minimize never called) and state carried between calls is attributable."""
+    import pickle
+    r, w = os.pipe()
+    pid = os.fork()
+    if pid == 0:
+        code = 0
+        try:
+            os.close(r)
+            signal.setitimer(signal.ITIMER_REAL, 0)
+            try:
+                res = pack_case(idx, spec["case"](seed, idx, tier))
+            except BaseException:
+                res = {"idx": idx, "error": traceback.format_exc()[-4000:]}
+            with os.fdopen(w, "wb") as f:
+                pickle.dump(res, f)
+        except BaseException:
+            code = 1
+        finally:
+            os._exit(code)
+    os.close(w)
+    try:
+        with os.fdopen(r, "rb") as f:
+            data = f.read()
+    except CaseTimeout:
+        try:
+            os.kill(pid, signal.SIGKILL)
+        finally:
+            os.waitpid(pid, 0)
+        raise
+    os.waitpid(pid, 0)
+    if not data:
+        return {"idx": idx, "error": "isolated child died without a result"}
+    return pickle.loads(data)
 
 
 def pack_case(idx, cr):
